@@ -5,12 +5,34 @@
  * the key was in the inode body, the list is written back exactly when it
  * changed.  OP 2: get(key) returns a private copy of exactly the stored value,
  * or EXT2_ET_EA_KEY_NOT_FOUND, and does not change the handle.
+ * Every attribute carries a symbolic ea_ino (0 = in-line value, else the value
+ * inode): remove drops exactly one reference, on the REMOVED attribute's value
+ * inode as it was before the call, iff it had one; no other value inode is
+ * touched; get never touches one.
  */
+#include "config.h"
+#include <stdio.h>
 #include <string.h>
+#include "ext2_fs.h"
+#include "ext2_ext_attr.h"
+#include "ext2fs.h"
 static void *stub_memmove(void *dst, const void *src, size_t n);
+static errcode_t xattr_inode_dec_ref(ext2_filsys fs, ext2_ino_t ino);
 #define memmove stub_memmove
-#include "lib/ext2fs/ext_attr.c"
+#include "lib/ext2fs/ext_attr.c"	/* cut_statics: xattr_inode_dec_ref */
 #undef memmove
+/* STUB: xattr_inode_dec_ref() (cut: dropping one reference on a value inode; its own logic needs inode I/O, punch and bitmaps: outside) records every inode number it is asked to release */
+#define VF_DEC_MAX 4
+static int stub_dec_calls;
+static ext2_ino_t stub_dec_ino[VF_DEC_MAX];
+static errcode_t xattr_inode_dec_ref(ext2_filsys fs, ext2_ino_t ino)
+{
+	(void) fs;
+	if (stub_dec_calls < VF_DEC_MAX)
+		stub_dec_ino[stub_dec_calls] = ino;
+	stub_dec_calls++;
+	return 0;
+}
 /* STUB: memmove() (only used by ext_attr.c to shift elements of the attribute array) copies whole array elements through a temporary, at most 3 of them; CBMC's built-in variable-length memmove model costs 10M variables here, a byte loop turns the pointers inside the elements into integers */
 static int stub_memmove_bad;
 static void *stub_memmove(void *dst, const void *src, size_t n)
@@ -63,7 +85,7 @@ VF_DECLARE_INPUT(struct vf_in, IN)
 static int stub_reads;
 errcode_t ext2fs_read_inode_full(ext2_filsys fs, ext2_ino_t ino, struct ext2_inode *inode, int sz)
 { (void) fs; (void) ino; (void) inode; (void) sz; stub_reads++; return VF_WRITE_ERR; }
-/* STUB: ext2fs_read_inode() (EA-inode reference counts) unreachable with ea_ino = 0: fails */
+/* STUB: ext2fs_read_inode() (value-inode hash for the serialiser) unreachable because the write-back stops at the inode read: fails */
 errcode_t ext2fs_read_inode(ext2_filsys fs, ext2_ino_t ino, struct ext2_inode *inode)
 { (void) fs; (void) ino; (void) inode; return EXT2_ET_BAD_INODE_NUM; }
 
@@ -89,7 +111,7 @@ static int vf_attr_is(struct ext2_xattr_handle *h, int j, const struct vf_attr *
 	int b, ok = 1;
 	if (!x->name || !x->value || x->short_name != x->name + PFX_LEN)
 		return 0;
-	if (x->name_index != m->idx || x->value_len != m->vlen || x->ea_ino != 0)
+	if (x->name_index != m->idx || x->value_len != m->vlen || x->ea_ino != m->ea_ino)
 		return 0;
 	for (b = 0; b < PFX_LEN; b++)
 		if (x->name[b] != PFX_STR[b])
@@ -145,7 +167,7 @@ int main(void)
 		x->name_index = 1;
 		x->value = vv;
 		x->value_len = IN.a[i].vlen;
-		x->ea_ino = 0;
+		x->ea_ino = IN.a[i].ea_ino;	/* symbolic: 0 = in-line, else value inode */
 	}
 	h->count = N;
 	h->ibody_count = IBC;
@@ -159,12 +181,22 @@ int main(void)
 	if (hit < 0) {
 		PROP(rc == 0, "removing an absent name succeeds");
 		PROP(stub_reads == 0, "nothing is written back when nothing changed");
+		PROP(stub_dec_calls == 0, "absent name: no value inode is released");
 		PROP(h->count == N && h->ibody_count == IBC, "absent name: counts unchanged");
 		for (i = 0; i < N; i++)
 			PROP(vf_attr_is(h, i, &IN.a[i]), "absent name: every attribute unchanged");
 	} else {
 		PROP(stub_reads == 1 && rc == VF_WRITE_ERR, "the shortened list is written back once and its result returned");
 		PROP(h->count == N - 1, "count drops by one");
+		for (i = 0; i < N; i++) {
+			if (i != hit)
+				continue;
+			if (IN.a[i].ea_ino != 0) {
+				PROP(stub_dec_calls == 1, "removing an attribute with a value inode drops exactly one reference");
+				PROP(stub_dec_ino[0] == IN.a[i].ea_ino, "the reference is dropped on the REMOVED attribute's value inode");
+			} else
+				PROP(stub_dec_calls == 0, "removing an in-line attribute releases no value inode");
+		}
 		PROP(h->ibody_count == IBC - (hit < IBC ? 1 : 0), "ibody_count drops iff the removed attribute was in the inode body");
 		for (i = 0; i < N; i++) {
 			if (i == hit)
@@ -191,6 +223,7 @@ int main(void)
 					ok = 0;
 			PROP(ok, "get returns the stored bytes");
 		}
+		PROP(stub_dec_calls == 0, "get releases no value inode");
 		PROP(h->count == N && h->ibody_count == IBC, "get does not change the counts");
 		for (i = 0; i < N; i++)
 			PROP(vf_attr_is(h, i, &IN.a[i]), "get does not change the list");
